@@ -50,12 +50,22 @@ type Script struct {
 	BigReq  int      `json:"big_req"`   // index of the request message carrying a 100 KiB payload, -1 none
 	BigRep  int      `json:"big_reply"` // index of the reply carrying a 100 KiB payload, -1 none
 	HTTPGet bool     `json:"http_get,omitempty"`
-	Fam     string   `json:"fam"` // plan family (structural class used in finding keys)
+	// MetaPlan: the back-end plan travels in the request metadata
+	// (x-vf-plan-bin) instead of the first message, so the back-end can act
+	// before it has read anything; every read is an explicit "r" step then.
+	// Client plans of such scripts contain think time: "w<ms>" pauses.
+	MetaPlan bool   `json:"meta_plan,omitempty"`
+	Pause    string `json:"pause,omitempty"` // pause class: where the client thinks (open|between|close|all) and how long
+	Fam      string `json:"fam"`             // plan family (structural class used in finding keys)
 }
 
 func (s *Script) String() string {
-	return fmt.Sprintf("%s/%s n=%d fam=%s server=%s final=%d client=%s md=%s", s.Front, s.Shape, s.NMsg, s.Fam,
-		strings.Join(s.Server, ""), s.Final.Code, strings.Join(s.Client, ""), s.MDClass)
+	meta := ""
+	if s.MetaPlan {
+		meta = " plan-in-metadata pause=" + s.Pause
+	}
+	return fmt.Sprintf("%s/%s n=%d fam=%s server=%s final=%d client=%s md=%s%s", s.Front, s.Shape, s.NMsg, s.Fam,
+		strings.Join(s.Server, ""), s.Final.Code, strings.Join(s.Client, ","), s.MDClass, meta)
 }
 
 // wire form of the plan inside Chunk.script
@@ -216,6 +226,105 @@ func structures(front string) []structure {
 	return out
 }
 
+// pauseMS are the think times used at the points where the order of events
+// on the two sides of the proxy matters.
+var pauseMS = []int{20, 100, 300}
+
+// paused builds the client plan "n sends then half-close" with think time
+// after opening the stream (open), between sends (between) and before the
+// half-close (close).
+func paused(n, ms int, open, between, closeP bool) []string {
+	w := fmt.Sprintf("w%d", ms)
+	var out []string
+	if open {
+		out = append(out, w)
+	}
+	for i := 0; i < n; i++ {
+		if i > 0 && between {
+			out = append(out, w)
+		}
+		out = append(out, "s")
+	}
+	if closeP {
+		out = append(out, w)
+	}
+	return append(out, "c")
+}
+
+// metaStructures enumerates the scripts whose back-end plan travels in the
+// metadata: the back-end fails / finishes / replies before it has read
+// anything, after r messages, or after the half-close, while the client
+// thinks before its first send, between sends and before the half-close.
+// Client-streaming and bidi only (the other shapes have a single message
+// that grpc-go sends with the headers).
+func metaStructures(front string) []structure {
+	var out []structure
+	both := []bool{false, true}
+	type pp struct {
+		name                 string
+		open, between, close bool
+	}
+	points := []pp{{"open", true, false, false}, {"between", false, true, false}, {"close", false, false, true}, {"all", true, true, true}}
+	for _, shape := range []string{"cs", "bidi"} {
+		for _, n := range []int{1, 2, 3, 5} {
+			for r := 0; r <= n; r++ {
+				if n == 5 && r > 2 && r < 5 {
+					continue
+				}
+				for _, e := range both {
+					if e && r != 0 && r != n {
+						continue
+					}
+					replies := []int{0}
+					if shape == "bidi" {
+						replies = []int{0, 1, 2}
+					}
+					for _, j := range replies {
+						for _, replyFirst := range both {
+							if replyFirst && (j == 0 || r == 0) {
+								continue // same as the plain order
+							}
+							for _, f := range both {
+								fam := fmt.Sprintf("meta:read-%s", map[bool]string{true: "none", false: "some"}[r == 0])
+								if r == n {
+									fam = "meta:read-all"
+								}
+								if e {
+									fam = "meta:read-to-eof"
+									if r == 0 {
+										fam = "meta:wait-eof-only"
+									}
+								}
+								var srv []string
+								if replyFirst {
+									srv = cat(rep("s", j), rep("r", r))
+									fam += "/reply-first"
+								} else {
+									srv = cat(rep("r", r), rep("s", j))
+								}
+								if e {
+									srv = append(srv, "e")
+								}
+								for _, pt := range points {
+									if pt.name == "between" && n == 1 {
+										continue
+									}
+									for _, ms := range pauseMS {
+										sc := Script{Front: front, Shape: shape, NMsg: n, Server: srv, Fam: fam, BigReq: -1, BigRep: -1, MetaPlan: true,
+											Client: paused(n, ms, pt.open, pt.between, pt.close), Pause: fmt.Sprintf("%s/%dms", pt.name, ms)}
+										out = append(out, structure{sc, f})
+									}
+								}
+							}
+						}
+					}
+				}
+			}
+		}
+	}
+	return out
+}
+
 var msgClasses = []string{"plain", "empty", "escaped", "long"}
 
 func msgOf(class string, code int32) string {
@@ -323,7 +432,12 @@ func statusSpace(front string) []*Script {
 func Cases(rng *rand.Rand, thorough bool) []*Script {
 	var list []*Script
 	strs := append(structures("grpc"), structures("http")...)
+	metas := append(metaStructures("grpc"), metaStructures("http")...)
 	if thorough {
+		// think-time scripts: every structure once
+		for _, st := range metas {
+			list = append(list, materialise(rng, st))
+		}
 		for _, st := range strs {
 			// Plans in which the back-end finishes while the client is still
 			// sending are the ones where the forwarder's two goroutines
@@ -374,6 +488,27 @@ func Cases(rng *rand.Rand, thorough bool) []*Script {
 	}
 	for len(list) < budget {
 		list = append(list, materialise(rng, strs[rng.Intn(len(strs))]))
+	}
+	// think-time scripts: two per (front, shape, family, pause point), with a
+	// drawn message count, failure flag and pause length, plus a random fill.
+	byPt := map[string][]structure{}
+	var pts []string
+	for _, st := range metas {
+		k := st.Front + "/" + st.Shape + "/" + st.Fam + "/" + strings.SplitN(st.Pause, "/", 2)[0]
+		if _, ok := byPt[k]; !ok {
+			pts = append(pts, k)
+		}
+		byPt[k] = append(byPt[k], st)
+	}
+	for _, k := range pts {
+		g := byPt[k]
+		var fails []structure
+		for _, st := range g {
+			if st.fail {
+				fails = append(fails, st)
+			}
+		}
+		list = append(list, materialise(rng, fails[rng.Intn(len(fails))]), materialise(rng, g[rng.Intn(len(g))]))
 	}
 	return list
 }
